@@ -189,6 +189,12 @@ def _analyze_view(prefix, links, leaf="job"):
             obsolete.append(os.path.join(*(n.name for n in branch)))
     if "." in obsolete:
         obsolete.remove(".")
+    # A link of the previous view that is not part of the new view must go even if a new path
+    # leads through it (then it is colored as a node above): otherwise the directories and the
+    # link of that path would be created through it, inside the job directory it points to.
+    obsolete.extend(
+        path for path in existing_paths if path not in links and path not in obsolete
+    )
     keep_or_update = existing_paths.intersection(links.keys())
     new = set(links.keys()).difference(keep_or_update)
     to_update = [
